@@ -179,6 +179,11 @@ def gen_rej(rng, app, ref, tree, flat, apro):
 
 # ---------------------------------------------------------------------------
 def canon(case, line):
+    if line.startswith("TREEMODEL("):
+        # the model driver evaluated the tree stages of Save/TreeApp.v for this case (flattening of the port
+        # tree = the case's application, names_ok, walk with the runtime object = the live ports, the saved
+        # lines dispatched on the tree = apply_line) and one of them does not hold: a disagreement
+        return line[:200]
     if line.startswith("UNDECLARED "):
         # the model driver evaluated `declared a (apropos_of_tree root)` for this application and it does
         # not hold (hypothesis of C13_perm_invariant / C12's sorted pipeline): shown as a disagreement
